@@ -2,6 +2,7 @@
 # tools/try_mutant.sh <mutant-dir> <check-id>...   apply patch.diff to /repo, run the checks (quick), revert.
 D=$1; shift
 cd /repo || exit 2
+if [ -n "$(git status --porcelain)" ]; then echo "REFUSING: /repo has uncommitted changes (they would be lost by the clean-up reset)"; exit 4; fi
 if ! git apply --check "$D/patch.diff" 2>/dev/null; then
   if ! git apply --3way "$D/patch.diff" 2>/dev/null; then echo "PATCH DOES NOT APPLY: $D"; git reset -q --hard HEAD; exit 3; fi
   git reset -q
